@@ -572,6 +572,16 @@ class Facts:
                             c = "[bin]" + c
                         if c in self.fns:
                             outs.add(c)
+                # dropping a value of a workspace type that implements Drop runs that impl (a `drop` terminator, not a call;
+                # a value nested inside another type is reached through the outer type's drop glue, which is not followed)
+                for b_ in f.reachable() if f.blocks else ():
+                    t_ = f.term(b_)
+                    if t_["k"] == "drop" and t_.get("pty"):
+                        dp = "<%s as core::ops::drop::Drop>::drop" % t_["pty"].split("<")[0]
+                        if f.unit.endswith("executable"):
+                            dp = "[bin]" + dp
+                        if dp in self.fns:
+                            outs.add(dp)
                 # function items used as values (fn pointers / passed to combinators)
                 for op in all_operands(f):
                     k = op.get("k")
